@@ -47,13 +47,33 @@ pub fn tid(i: u8) -> u128 {
         x ^= x >> 32;
         x as u128
     };
-    ((mix(i as u64 + 1) << 40) | (mix(i as u64 + 77) & 0xFF_FFFF_FF00) | (i as u128 + 1)) & ((1u128 << 96) - 1)
+    // The ids of the universe are *related*, so that an implementation which keys its table on a
+    // part of the id conflates two of them: all derive from one seeded 96-bit value B;
+    // id 1 = B with the top 32 bits complemented (same low 64 bits), id 2 = B with the low 32 bits
+    // complemented (same top 64 bits), id 3 (the "unknown" id) = B with bit 64 flipped, others mixed.
+    let b = ((mix(1) << 40) | (mix(77) & 0xFF_FFFF_FF00) | 1) & ((1u128 << 96) - 1);
+    match i {
+        0 => b,
+        1 => b ^ (0xFFFF_FFFFu128 << 64),
+        2 => b ^ 0xFFFF_FFFFu128,
+        3 => b ^ (1u128 << 64),
+        _ => ((mix(i as u64 + 1) << 40) | (mix(i as u64 + 77) & 0xFF_FFFF_FF00) | (i as u128 + 1)) & ((1u128 << 96) - 1),
+    }
 }
 
+/// 0 local, 1 and 2 remote; 4.. are pairs that a "helpful" normalisation would conflate: 4 / 5 differ
+/// in NO-BREAK SPACE vs SPACE, 6 is key 1 in upper case, 7 is key 1 with a trailing space, 8 / 9 are
+/// the composed and decomposed spelling of the same text
 pub fn key_text(k: u8) -> &'static str {
     match k {
         0 => "local-pw",
         1 => "remote-one",
+        4 => "remote\u{a0}one\u{3000}pass",
+        5 => "remote one pass",
+        6 => "REMOTE-ONE",
+        7 => "remote-one ",
+        8 => "caf\u{e9}-pass",
+        9 => "cafe\u{301}-pass",
         _ => "remote-two",
     }
 }
@@ -90,6 +110,10 @@ pub enum When {
     WakePlus1,
     WakePlus700,
     Far,
+    /// 300 ms *before* the instant of the previous call: the caller's clock sample is older than the
+    /// one a request was sent with (one `Instant::now()` per loop iteration, a fresh one per send).
+    /// The agent must answer as for any early poll; the model's own clock does not go back.
+    Past,
 }
 
 #[derive(Clone, Copy, Debug, Serialize, Deserialize, PartialEq, Eq, Hash, PartialOrd, Ord)]
@@ -371,7 +395,11 @@ impl Real {
     }
 
     pub fn at(&self, ms: i64) -> Instant {
-        self.base + Duration::from_millis(ms as u64)
+        if ms >= 0 {
+            self.base + Duration::from_millis(ms as u64)
+        } else {
+            self.base - Duration::from_millis((-ms) as u64)
+        }
     }
 
     fn rel_ns(&self, i: Instant) -> i128 {
